@@ -1260,7 +1260,7 @@ func runRetry(casesPath, tracePath, resPath string, shard, shards int) {
 		}
 		g, t := 6000, 0
 		if contains(c.Script, "gtmo") {
-			g = 400
+			g = 280 // with the per-try timeout below: the third attempt is the one the global timer ends
 		}
 		if contains(c.Script, "ptmo") {
 			t = 120
@@ -1399,7 +1399,7 @@ func runRetry(casesPath, tracePath, resPath string, shard, shards int) {
 		}
 		nh := 4
 		tr.Emit(vh.Ev{"ev": "run", "pol": map[string]interface{}{"on": c.Pol.On, "n": c.Pol.N, "codes": nonNil(c.Pol.Codes)}, "script": c.Script,
-			"nhosts": nh, "g": g, "t": t, "cluster": cname, "name": tok, "act": c.Act})
+			"nhosts": nh, "g": g, "t": t, "gap": atomic.LoadInt64(maxGap), "cluster": cname, "name": tok, "act": c.Act})
 		natt := 0
 		arr := reg.arrivals(tok)
 		used := make([]bool, len(arr))
